@@ -41,7 +41,8 @@ FILE = {"absent": "out.json", "existing": "exist.json", "dir": "adir", "symlink-
         "absent-trailing-slash": "fresh.json/", "symlink-loop": "loop_lnk", "dangling-into-missing-dir": "dang2"}
 PRECIOUS = ("exist.json", "keep.json", "lnk", "adir", "rel_lnk", "up_lnk", "abs_lnk", "dir_lnk")
 PW = {"none": None, "ascii": "pw", "nfkd-sensitive": "p\u00e4ss\ufb01\uff11\u2126", "blank-padded": "  two  blanks ", "empty": "",
-      "json-like": '[ a ] { "k" : [ 1 , 2 ] } \\ "q" ,\n\t: [\n    x\n]'}
+      "json-like": '[ a ] { "k" : [ 1 , 2 ] } \\ "q" ,\n\t: [\n    x\n]',
+      "at-existing-file": "@exist.json"}
 
 
 def cmd_args(cmd, arg, password=None):
